@@ -39,6 +39,7 @@ fn common_dump(app: &std::path::Path, bp: &std::path::Path, target: &libcnb::Tar
     let mut env: Vec<(String, String)> = platform.env().iter().map(|(k, v)| (os_hex(k), os_hex(v))).collect();
     env.sort();
     json!({"app_dir": app.to_string_lossy(), "buildpack_dir": bp.to_string_lossy(),
+           "app_dir_hex": os_hex(app.as_os_str()), "buildpack_dir_hex": os_hex(bp.as_os_str()),
            "target": {"os": target.os, "arch": target.arch, "arch_variant": target.arch_variant, "distro_name": target.distro_name, "distro_version": target.distro_version},
            "platform_env": env,
            "descriptor": {"api": [d.api.major, d.api.minor], "id": d.buildpack.id.as_str(), "version": d.buildpack.version.to_string(), "name": d.buildpack.name,
@@ -107,6 +108,7 @@ impl Buildpack for Bp {
         let mut d = common_dump(&c.app_dir, &c.buildpack_dir, &c.target, &c.platform, &c.buildpack_descriptor);
         d["phase"] = json!("build");
         d["layers_dir"] = json!(c.layers_dir.to_string_lossy());
+        d["layers_dir_hex"] = json!(os_hex(c.layers_dir.as_os_str()));
         d["plan"] = json!(c.buildpack_plan.entries.iter().map(|e| json!({"name": e.name, "metadata": toml_to_json(&toml::Value::Table(e.metadata.clone()))})).collect::<Vec<_>>());
         d["store"] = c.store.as_ref().map_or(Value::Null, |s| toml_to_json(&toml::Value::Table(s.metadata.clone())));
         dump(&self.script, &d);
